@@ -113,6 +113,8 @@ DESCRIPTORS = [
     [None, []],
     [["decimal.Decimal"], []],
     ["Plain", []],
+    ["builtins.int", ["f" * 5000, 16]],  # a side-effect-free class yielding a value that str()/format() refuse (int digit limit)
+    ["builtins.int", ["7"]],
 ]
 
 
@@ -136,6 +138,8 @@ def cases_jsonclass(tier):
             [{"jsonrpc": "2.0", "method": "echo", "params": [x], "id": 1}, {"jsonrpc": "2.0", "method": "f", "id": 2}],
             {"jsonrpc": "2.0", "method": "echo", "params": [xa], "id": 1},
             {"jsonrpc": "2.0", "method": "f", "params": [x]},
+            {"data": x},
+            [{"data": x}, {"jsonrpc": "2.0", "method": "f", "id": 4}],
         ]
         for p in places:
             for w in ws:
@@ -229,8 +233,14 @@ def check_http(case):
         return out.bad("C02/do_POST-status-%s" % status, "do_POST on body %r answered status %s body %r" % (body, status, reply))
     if direct_raised is None:
         def norm(t):
-            # replies of different requests may carry different generated text only inside error messages
-            return json.loads(t) if t else None
+            # two runs of one request may differ only inside error message texts (object addresses, generated ids)
+            def strip(o):
+                if isinstance(o, list):
+                    return [strip(i) for i in o]
+                if isinstance(o, dict):
+                    return {k: ("<message>" if k == "message" else strip(v)) for k, v in o.items()}
+                return o
+            return strip(json.loads(t)) if t else None
         try:
             same = norm(reply.decode("utf-8")) == norm(direct)
         except ValueError:
@@ -260,7 +270,7 @@ META = {
     "rule": "objects: every object over jsonrpc(6) x id(18) x method(11) x params(13) member options; batches: top-level scalars and every "
     "batch of length <=2 (quick: 12-entry alphabet) / <=3 (thorough: 24 entries); corrupt: every truncation and every single-character "
     "deletion/substitution/insertion over a 14-character alphabet of 6 (quick) / 12 (thorough) seed requests plus 60 non-JSON texts; "
-    "jsonclass: 27 descriptor shapes x 14 placements; http: every 7th (quick) / 2nd (thorough) of those bodies through do_POST; "
+    "jsonclass: 29 descriptor shapes x 16 placements; http: every 7th (quick) / 2nd (thorough) of those bodies through do_POST; "
     "x server version {1.0,2.0} x translation on/off x default/custom dispatch. A case is non-trivial when it is inside the property's "
     "domain (bodies with NaN/Infinity literals or overflowing numbers are counted as trivial and not judged)",
     "bounds": {"quick": {"batch_len": 2, "seeds": 6}, "thorough": {"batch_len": 3, "seeds": 12, "double_corruptions_of_shortest": 3}},
